@@ -1027,3 +1027,48 @@ SEED_SNIPPETS = [
     "    value = [\n        1\n        if cond\n        else 2\n        for cond in (True,\n                     False)\n        if cond is not None\n    ]\n"
     "    text = \"\"\"\nclass Fake:\n    def method(self):\n        pass\n\"\"\"\n    return value, text\n",
 ]
+
+
+def break_in_brackets(text, rnd, n=5, indents=("", "  ", "    ", "        ", "            ")):
+    """Plain variant of the bracket-newline mutation: up to n line breaks between two tokens inside brackets,
+    the continuation line indented by one of `indents` -- no comments, no blank lines, no tabs.  Returns the
+    new text (ast.dump-equal to `text`) or None."""
+    try:
+        want = ast.dump(ast.parse(text))
+    except SyntaxError:
+        return None
+    cur = text
+    done = 0
+    for _ in range(n * 3):
+        if done >= n:
+            break
+        try:
+            toks = list(tokenize.generate_tokens(io.StringIO(cur).readline))
+        except (tokenize.TokenError, SyntaxError, IndentationError):
+            break
+        starts = line_starts(cur)
+        depth = 0
+        gaps = []
+        fdepth = 0
+        for a, b in zip(toks, toks[1:]):
+            if a.type == getattr(tokenize, "FSTRING_START", -1):
+                fdepth += 1
+            elif a.type == getattr(tokenize, "FSTRING_END", -1):
+                fdepth -= 1
+            if a.type == tokenize.OP and a.string in "([{":
+                depth += 1
+            elif a.type == tokenize.OP and a.string in ")]}":
+                depth -= 1
+            if depth > 0 and fdepth == 0 and a.end[0] == b.start[0] and b.type not in (tokenize.NL, tokenize.NEWLINE, tokenize.COMMENT):
+                gaps.append((starts[a.end[0] - 1] + a.end[1], starts[b.start[0] - 1] + b.start[1]))
+        if not gaps:
+            break
+        s, e = rnd.choice(gaps)
+        new = cur[:s] + "\n" + rnd.choice(indents) + cur[e:]
+        try:
+            if ast.dump(ast.parse(new)) == want:
+                cur = new
+                done += 1
+        except SyntaxError:
+            pass
+    return cur if done else None
